@@ -774,6 +774,14 @@ func (env *Env) elabCall(x *ECall) Val {
 			return Val{T: types.Typ[types.Bool], S: fmt.Sprintf("(>= (rootof %s) %s)", a.S, env.freshBase)}
 		}
 		fail("fresh() needs a slice or pointer")
+	case name == "hasprefix":
+		// hasprefix(s, p): strings.HasPrefix(s, p), the same uninterpreted relation the encoder uses
+		a, b := env.elab(x.Args[0]), env.elab(x.Args[1])
+		if !isString(a.T) || !isString(b.T) {
+			fail("hasprefix() needs strings")
+		}
+		c.declareFun("str_prefix", []string{"Str", "Str"}, "Bool")
+		return Val{T: types.Typ[types.Bool], S: fmt.Sprintf("(str_prefix %s %s)", a.S, b.S)}
 	case name == "typeof":
 		v := env.elab(x.Args[0])
 		return Val{T: mathOrInt(c), S: fmt.Sprintf("(iface_type %s)", v.S)}
